@@ -589,7 +589,7 @@ def _evolve_ref(psi, t, T, dt, order, bt, L, d, cyclic, imag, ham_norm):
 @driver("C11", "tebd-product-formula", chunks=10, timeout=400,
         bound="TEBD on chains L 2..7 open and 3..6 periodic, d=2 (d=3 for L<=4), random complex Hermitian site-dependent "
               "non-exchange-symmetric two-site terms + one-site terms (also a single 2-site array), random normalised complex "
-              "MPS or product initial states, orders 1, 2, 4, dt in [0.03, 0.2] or tol in [1e-3, 1e-2], t0 in {0, 0.37}, 2-4 "
+              "MPS or product initial states, orders 1, 2, 4, dt in [0.03, 0.2] or a tol giving such a dt, t0 in {0, 0.37}, 2-3 "
               "successive targets (not multiples of dt, and exact multiples) through update_to and at_times, real and "
               "imaginary time, split cutoff 0 or default (no bond cap): t == T (4 ulp), state == written-out product formula "
               "(1e-7), norm 1, err bookkeeping, convergence ratio under step halving (odd periodic chains: first order only, "
@@ -601,7 +601,7 @@ def tebd(cx):
 
     _serial_cotengra()
     rng = cx.rng
-    reps = 5 if cx.quick else 40
+    reps = 2 if cx.quick else 24
     grid = list(itertools.product((2, 3, 4, 5, 6, 7), (False, True), (1, 2, 4), (False, True), range(reps)))
     for L, cyclic, order, imag, rep in grid:
         if cyclic and (L < 3 or L > 6):
@@ -615,11 +615,11 @@ def tebd(cx):
         d = 3 if (L <= 4 and rng.integers(4) == 0) else 2
         hmode = ("explicit", "default+override", "array")[int(rng.integers(3))]
         h1mode = ("none", "array", "default+some", "some")[int(rng.integers(4))]
-        use_tol = bool(rng.integers(4) == 0)
+        use_tol = bool(rng.integers(4) == 0) and not (cyclic and L % 2 == 1)
         dt = float(rng.uniform(0.03, 0.2))
         tol = float(rng.uniform(1e-3, 1e-2))
         t0 = (0.0, 0.37)[int(rng.integers(2))]
-        ntar = int(rng.integers(2, 5))
+        ntar = int(rng.integers(2, 4))
         api = ("update_to", "at_times")[int(rng.integers(2))]
         cutoff0 = bool(rng.integers(2))
         p0kind = ("rand", "product", "real")[int(rng.integers(3))]
@@ -652,18 +652,19 @@ def tebd(cx):
                 H = qtn.LocalHam1D(L, H2=spec.H2, H1=spec.H1, cyclic=cyclic)
             ham_norm = float(np.mean([np.linalg.norm(m) for m in bt.values()]))
             kw = dict(tol=tol) if use_tol else dict(dt=dt)
+            if use_tol:
+                # the tolerance is chosen so that the documented rule dt = (tol / (T |H|))^(1/order) gives steps of about `dt`
+                tol = 0.5 * ham_norm * dt ** order
+                kw = dict(tol=tol)
             so = {"cutoff": 0.0} if cutoff0 else None
             tb = qtn.TEBD(p0, H, t0=t0, split_opts=so, progbar=False, imag=imag, **kw)
             if abs(tb.t - t0) > 0:
                 return f"initial time {tb.t}"
             # targets
-            if use_tol:
-                span = float(r.uniform(0.3, 0.8))
-            else:
-                span = dt * float(r.uniform(2.2, 6.8))
+            span = dt * float(r.uniform(1.2, 4.8)) if not use_tol else 0.5
             if odd_cyclic:
                 # exact product formula only without merged sweeps: a single (final) step per call
-                span = (dt if not use_tol else 0.05) * 0.9 * ntar
+                span = dt * 0.9 * ntar if not use_tol else 0.5
             cuts = np.sort(r.uniform(0.05, 1.0, size=ntar))
             cuts[-1] = 1.0
             targets = [t0 + span * float(c) for c in cuts]
